@@ -519,6 +519,8 @@ fn count_maps() -> usize {
 enum Slot {
     U8(std::sync::Arc<rustradio::circular_buffer::Buffer<u8>>),
     U32(std::sync::Arc<rustradio::circular_buffer::Buffer<u32>>),
+    /// other element sizes: only creation / drop are exercised
+    Other(Box<dyn std::any::Any + Send>),
 }
 
 /// Aliasing probe through the public window API, on an empty ring: the write
@@ -572,8 +574,23 @@ pub fn cmd_mmap_run(args: &[String]) -> i32 {
                             let size = op[3].as_u64().unwrap() as usize;
                             let elem = op[4].as_u64().unwrap();
                             strace_mark(&format!("new-begin-{slot}"));
+                            fn other<T: Copy + Send + Sync + 'static>(size: usize) -> Result<rustradio::Result<Slot>, String> {
+                                catch(|| rustradio::circular_buffer::Buffer::<T>::new(size)).map(|r| r.map(|b| Slot::Other(Box::new(std::sync::Arc::new(b)))))
+                            }
                             let res = if elem == 4 {
                                 catch(|| rustradio::circular_buffer::Buffer::<u32>::new(size)).map(|r| r.map(|b| Slot::U32(std::sync::Arc::new(b))))
+                            } else if elem == 3 {
+                                other::<[u8; 3]>(size)
+                            } else if elem == 6 {
+                                other::<[u16; 3]>(size)
+                            } else if elem == 8 {
+                                other::<rustradio::Complex>(size)
+                            } else if elem == 12 {
+                                other::<[f32; 3]>(size)
+                            } else if elem == 24 {
+                                other::<[u64; 3]>(size)
+                            } else if elem == 4096 {
+                                other::<crate::graphs::Big>(size)
                             } else {
                                 catch(|| rustradio::circular_buffer::Buffer::<u8>::new(size)).map(|r| r.map(|b| Slot::U8(std::sync::Arc::new(b))))
                             };
